@@ -54,9 +54,16 @@ func aliasBytes(b []byte) string {
 	return unsafe.String(&b[0], len(b))
 }
 
-func c06App(immutable bool, caps map[string]*c06Cap) fasthttp.RequestHandler {
+func c06App(immutable, trust bool, caps map[string]*c06Cap) fasthttp.RequestHandler {
 	put := func(k, v string) { caps[k] = &c06Cap{alias: v, clone: strings.Clone(v)} }
-	app := fiber.New(fiber.Config{Immutable: immutable, ErrorHandler: func(c fiber.Ctx, err error) error {
+	tpc := fiber.TrustProxyConfig{}
+	proxyHeader := ""
+	if trust {
+		// the peer is a trusted proxy: scheme, host and address come from the forwarding headers
+		tpc.Proxies = []string{"203.0.113.9"}
+		proxyHeader = fiber.HeaderXForwardedFor
+	}
+	app := fiber.New(fiber.Config{Immutable: immutable, TrustProxy: trust, TrustProxyConfig: tpc, ProxyHeader: proxyHeader, ErrorHandler: func(c fiber.Ctx, err error) error {
 		// a request that matches no route ends here: the error handler is a handler like any other, what it takes from the
 		// context -- also the path reported by Route() -- is the request's
 		if strings.HasPrefix(c.Path(), "/nomatch/") {
@@ -95,6 +102,10 @@ func c06App(immutable bool, caps map[string]*c06Cap) fasthttp.RequestHandler {
 			put("subdomains", sd[0])
 		}
 		put("method", c.Method())
+		put("scheme", c.Scheme())
+		if ips := c.IPs(); len(ips) > 0 {
+			put("ips", ips[0])
+		}
 		put("genericquery", fiber.Query[string](c, "q"))
 		put("genericquerybytes", aliasBytes(fiber.Query[[]byte](c, "q")))
 		put("genericparams", fiber.Params[string](c, "p"))
@@ -150,6 +161,20 @@ func c06Request(shape, tag string, pad int) (raw string, expect map[string]strin
 		"header": v("hval"), "reqheaders": v("hval"), "cookies": v("cval"), "host": sub + ".example.com", "hostname": sub + ".example.com",
 		"ip": "203.0.113.9", "baseurl": "http://" + sub + ".example.com", "subdomains": sub, "genericquery": v("qval"), "genericquerybytes": v("qval"), "genericparams": v("pval"),
 		"bindquery": v("qname"), "bindheader": v("hname"), "bindcookie": v("cname"), "binduri": v("pval"), "rangetype": v("unit")}
+	expect["scheme"] = "http"
+	if strings.HasPrefix(shape, "forwarded") {
+		// behind a trusted proxy; "forwardedlist": every forwarding header carries a list, the first element counts
+		sch, fsub, more := strings.ToLower(v("sch")), strings.ToLower(v("fsub")), [3]string{}
+		if shape == "forwardedlist" {
+			more = [3]string{", http", ", second.example.net", ", 198.51.100.8"}
+			delete(expect, "ip") // without address validation the whole header value is the address
+		} else {
+			expect["ip"] = "198.51.100.7"
+		}
+		hdrs += "X-Forwarded-Proto: " + sch + more[0] + "\r\nX-Forwarded-Host: " + fsub + ".fwd.example.net" + more[1] + "\r\nX-Forwarded-For: 198.51.100.7" + more[2] + "\r\n"
+		expect["scheme"], expect["host"], expect["hostname"], expect["baseurl"], expect["subdomains"], expect["ips"] =
+			sch, fsub+".fwd.example.net", fsub+".fwd.example.net", sch+"://"+fsub+".fwd.example.net", fsub, "198.51.100.7"
+	}
 	switch shape {
 	case "unmatched":
 		path = "/nomatch/" + v("pval")
@@ -193,7 +218,7 @@ func TestC06(t *testing.T) {
 		}
 		n++
 		caps := map[string]*c06Cap{}
-		h := c06App(cs.Immutable, caps)
+		h := c06App(cs.Immutable, strings.HasPrefix(cs.Shape, "forwarded"), caps)
 		rc := &fasthttp.RequestCtx{}
 		rc.Init2(fakeConn{&net.TCPAddr{IP: net.ParseIP("203.0.113.9"), Port: 4000}}, nil, false)
 		// a connection that has been in use: its buffers have grown (a long target was served on it before)
